@@ -18,28 +18,31 @@ Vocabulary (`Netpol.PermLayer`).
   per workload manifest); `nssIn objs` — the Namespace objects as stored.
 * `DistinctKeys objs` — no two of these pods share `namespace/name`, no two Namespace objects share
   a name (otherwise the later one replaces the earlier one: counterexamples 1, 2, 3 below).
-* `SamePeer p q` — `p` and `q` agree on namespace, labels (as lists; the model's own check
-  `labelsEq` compares them as maps), container ports and on the name the focus option is compared
-  with, and are real pods; `UniformPods pods` — pods with the same workload
-  name (`ns/owner[Kind]`) are `SamePeer` (the report is computed on ONE pod per workload, "the last
-  one met": counterexample 4 below).
-* `PodPortsValid objs`, `PoliciesValid objs` — API validation: container ports and rule ports are
-  port numbers, no empty rule peer, admin rules have peers and valid ports, no `Pass` in the BANP.
-  Without valid ports the union of connection sets is order-sensitive ("all connections" is only
-  recognised on the exact range 1-65535: counterexamples 7, 8); without the other clauses two
-  different evaluation errors can be present, and which one is reported depends on the order
-  (counterexample 5).
-* `WellFormed objs` — the four together. All are decidable and invariant under permutation.
+* `PodsReal objs` — no pod is the representative pod of the exposure analysis (the parser never
+  produces one).
+* `PodPortsValid objs`, `NPRulesValid objs`, `PoliciesValid objs` — API validation: container ports
+  and rule ports are port numbers, no empty rule peer (`NPRulesValid`, the NetworkPolicy clause of
+  `PoliciesValid`); admin rules have peers and valid ports, no `Pass` in the BANP. Without valid
+  ports the union of connection sets is order-sensitive ("all connections" is only recognised on
+  the exact range 1-65535: counterexamples 7, 8); without valid rules two different evaluation
+  errors can be present, and which one is reported depends on the policy order (counterexample 5).
+* `WellFormed objs` — `DistinctKeys`, `PodsReal`, `PodPortsValid`, `PoliciesValid` together. All are
+  decidable and invariant under permutation.
 * `Engine.Equiv e e'` — the two engines hold the same objects: namespaces, pods, NetworkPolicies are
   permutations of each other with unique keys; the sorted ANP slice and the BANP are equal.
 * `IngressWF objs` (`Netpol.PermIngress`) — needed for the ingress-controller lines only: two
   *effective* Service documents (non-empty selector selecting some pod) with the same namespace and
-  name are the same document (`lookupSvc` keeps the last one met), and a pod named
-  `ingress-controller` in `ingress-controller-ns` shares its workload only with pods of that name
-  (counterexamples in `Netpol.PermIngress.Cx`).
-* `LSim`, `PeersSim peers peers'` — the two peers lists carry the same names, and peers of the same
-  name stand on `SamePeer` pods; `entryKey x = (x.src.str, x.dst.str, x.conn)` — what is printed of
-  an entry; `ExPerm` — the same error, or the same list up to order. -/
+  name are the same document (`lookupSvc` keeps the last one met; counterexamples in
+  `Netpol.PermIngress.Cx`).
+
+`createPodOwnersMap` walks the pods in the order of their keys (`Engine.sortedPods`), so the pod
+standing for a workload is the one with the greatest key, whatever the order of the pod map: the
+workload peers, the peers list and the peers × peers loop of two equivalent engines are *equal*,
+not only equal up to order. Before that repair the report depended on the order of the pod map
+whenever two pods of one workload differed in something the analysis reads (container ports: the
+former counterexample 4, now example 4 below), and the theorems needed the hypothesis that such
+pods are interchangeable (`PermLayer.UniformPods`, still used by the general lemmas on similar
+peers, no longer by the theorems here). -/
 namespace Netpol.Properties.C08.Engine
 open Netpol Netpol.Engine Netpol.Structure Netpol.PermLayer
 
@@ -101,18 +104,24 @@ theorem ip_peers_order_independent {e e' : Netpol.Engine} (hp : e.netpols.Perm e
     e.disjointIPBlocks = e'.disjointIPBlocks :=
   disjointIPBlocks_perm hp
 
-/-- equivalent engines with uniform pods list the same peers, standing on similar pods -/
-theorem peers_order_independent {e e' : Netpol.Engine} (h : e.Equiv e') (hu : UniformPods e.pods)
-    {peers peers' : List LPeer} (hpl : e.peersList = .ok peers) (hpl' : e'.peersList = .ok peers') :
-    PeersSim peers peers' :=
-  peersList_sim h hu hpl hpl'
+/-- **the workload peers and the pods standing for them do not depend on the order of the pod
+map**: `createPodOwnersMap` visits the pods in sorted key order -/
+theorem owners_order_independent {e e' : Netpol.Engine} (hp : e.pods.Perm e'.pods)
+    (hn : (e.pods.map podKey).Nodup) : e.podOwnersMap = e'.podOwnersMap :=
+  podOwnersMap_perm hp hn
+
+/-- equivalent engines list the same peers, in the same order, standing on the same pods -/
+theorem peers_order_independent {e e' : Netpol.Engine} (h : e.Equiv e') :
+    e.peersList = e'.peersList :=
+  peersList_equiv h
 
 /-- in particular the sorted peer names — the `peers` line of the report — are equal -/
 theorem peer_names_order_independent {e e' : Netpol.Engine} (h : e.Equiv e')
-    (hu : UniformPods e.pods) {peers peers' : List LPeer} (hpl : e.peersList = .ok peers)
-    (hpl' : e'.peersList = .ok peers') :
-    WorldDriver.sortStrs (peers.map (·.str)) = WorldDriver.sortStrs (peers'.map (·.str)) :=
-  sortStrs_perm (peerStrs_perm (peersList_sim h hu hpl hpl'))
+    {peers peers' : List LPeer} (hpl : e.peersList = .ok peers) (hpl' : e'.peersList = .ok peers') :
+    WorldDriver.sortStrs (peers.map (·.str)) = WorldDriver.sortStrs (peers'.map (·.str)) := by
+  rw [peersList_equiv h, hpl'] at hpl
+  cases hpl
+  rfl
 
 /-! ### C. one pair of peers -/
 
@@ -147,17 +156,24 @@ theorem rule_peers_order_free (np : NetPol) (k : KPeer) {peers peers' : List NPP
 
 /-! ### D. the computed relation -/
 
-/-- on a well-formed input and any reordering of it: the same peers, and the peers × peers loop
-returns the same error or the same entries (source name, destination name, connection set) up to
-order -/
+/-- the peers × peers loop on two equivalent engines: the same entries in the same order, or the
+same error (`LPeer.DstOK`: the workload peers stand on real pods with legal container ports) -/
+theorem loop_order_independent {e e' : Netpol.Engine} (h : e.Equiv e') (hv : NPValid e.netpols)
+    (focus : String) (peers : List LPeer) (hok : ∀ d ∈ peers, d.DstOK) :
+    e.connsBetweenPeers peers focus = e'.connsBetweenPeers peers focus :=
+  connsBetweenPeers_equiv h hv focus peers hok
+
+/-- on an input with distinct keys, real pods, valid ports and valid NetworkPolicy rules, and any
+reordering of it: the same peers list, the same owner map, and the peers × peers loop returns the
+same entries in the same order, or the same error -/
 theorem list_relation_order_independent {objs objs' : List Obj} (hp : objs.Perm objs')
-    (hw : WellFormed objs) {e e' : Netpol.Engine} (hb : Netpol.Engine.build objs = .ok e)
-    (hb' : Netpol.Engine.build objs' = .ok e') {peers peers' : List LPeer}
-    (hpl : e.peersList = .ok peers) (hpl' : e'.peersList = .ok peers') (focus : String) :
-    PeersSim peers peers' ∧
-    ExPerm ((e.connsBetweenPeers peers focus).map (·.map entryKey))
-      ((e'.connsBetweenPeers peers' focus).map (·.map entryKey)) :=
-  list_relation_perm hp hw hb hb' hpl hpl' focus
+    (hk : DistinctKeys objs) (hr : PodsReal objs) (hpp : PodPortsValid objs)
+    (hv : NPRulesValid objs) {e e' : Netpol.Engine} (hb : Netpol.Engine.build objs = .ok e)
+    (hb' : Netpol.Engine.build objs' = .ok e') (focus : String) :
+    e.peersList = e'.peersList ∧ e.podOwnersMap = e'.podOwnersMap ∧
+    ∀ peers, e.peersList = .ok peers →
+      e.connsBetweenPeers peers focus = e'.connsBetweenPeers peers focus :=
+  list_relation_perm hp hk hr hpp hv hb hb' focus
 
 /-! ### E. the report -/
 
@@ -182,12 +198,13 @@ theorem wellFormed_order_independent {objs objs' : List Obj} (hp : objs.Perm obj
   ⟨hw.perm hp, hi.perm hp⟩
 
 /-- inputs without Ingress / Route targets (`IngressA.targets objs = []`) need no hypothesis on
-Services -/
+Services nor on admin policies -/
 theorem list_order_independent_no_ingress {objs objs' : List Obj} (hp : objs.Perm objs')
-    (hw : WellFormed objs) (hok : (Netpol.Engine.build objs).isOk = true)
+    (hk : DistinctKeys objs) (hr : PodsReal objs) (hpp : PodPortsValid objs)
+    (hv : NPRulesValid objs) (hok : (Netpol.Engine.build objs).isOk = true)
     (htg : IngressA.targets objs = []) (focus : String) :
     WorldDriver.runList objs focus = WorldDriver.runList objs' focus := by
-  refine runList_perm_noIngress hp hw ?_ htg focus
+  refine runList_perm_noIngress hp hk hr hpp hv ?_ htg focus
   cases h : Netpol.Engine.build objs with
   | error err => rw [h] at hok; simp [Except.isOk, Except.toBool] at hok
   | ok e => exact ⟨e, rfl⟩
@@ -209,49 +226,62 @@ theorem list_error_order_independent {objs objs' : List Obj} (hp : objs.Perm obj
 ingress and egress rule lists, and the peers and ports inside each rule permuted
 (`PermRules.NpSim`); `PermRules.Forall₂ ObjSim objs objs'`: object by object, so any number of
 policies may change at once. `NPRulesValid`: rule ports are port numbers, no empty rule peer.
-`NoNamedPorts`: no egress rule that can select an IP block (no peers, or an `ipBlock` peer) has a
-named port. `PodsReal`: no pod is the representative pod of the exposure analysis (the parser
-never produces one). All decidable. -/
+`PodsReal`: no pod is the representative pod of the exposure analysis (the parser never produces
+one). All decidable.
+
+`allowedConns` examines every rule of a policy (it used to stop at the first rule that made the
+result "all connections"), so a policy fails on a pair iff some rule that selects the peer fails to
+evaluate, whatever the rule order; the former hypothesis `NoNamedPorts` (no named port in an egress
+rule that can select an IP block) is gone, and the former counterexample is an instance of the
+theorem (`np_rule_order_repaired`). What `NPRulesValid` still excludes — rules the API server
+rejects —: with an empty rule peer (`emptyRulePeer`) the *peer* order can mask the failure
+(`ruleSelectsPeer` returns at the first matching peer), and with two different failing rules in
+one policy the *kind* of error reported is that of the first one, which depends on the *rule*
+order (examples in `Netpol.PermRules.Findings`). -/
 
 /-- **C08, part 2: the report does not depend on the order of rules, rule peers, rule ports and
 `policyTypes` of NetworkPolicies.** No assumption on keys, Services, admin policies; `build` may
 fail (then with the same error). -/
 theorem np_inner_order_independent {objs objs' : List Obj}
-    (h : PermRules.Forall₂ PermRules.ObjSim objs objs') (hv : PermRules.NPRulesValid objs)
-    (hn : PermRules.NoNamedPorts objs) (hr : PermRules.PodsReal objs) (hpp : PodPortsValid objs)
+    (h : PermRules.Forall₂ PermRules.ObjSim objs objs') (hv : NPRulesValid objs)
+    (hr : PodsReal objs) (hpp : PodPortsValid objs)
     (focus : String) : WorldDriver.runList objs focus = WorldDriver.runList objs' focus :=
-  PermRules.runList_rules_perm h hv hn hr hpp focus
+  PermRules.runList_rules_perm h hv hr hpp focus
 
-/-- the sharp form, without `NoNamedPorts`: the inner order has no effect other than masking or
-unmasking the one failure of the NetworkPolicy layer, a named port towards an IP block —
-`allowedConns` stops at the first rule that makes the result "all connections", so a failing rule
-behind it is not evaluated (`PermRules.Findings.rule_order_matters`) -/
+/-- the former sharp form ("equal, or one of the two reports is `(err namedPortOnIP)`"), kept for
+its name: it is now a weakening of `np_inner_order_independent` -/
 theorem np_inner_order_independent_or {objs objs' : List Obj}
-    (h : PermRules.Forall₂ PermRules.ObjSim objs objs') (hv : PermRules.NPRulesValid objs)
-    (hr : PermRules.PodsReal objs) (hpp : PodPortsValid objs) (focus : String) :
+    (h : PermRules.Forall₂ PermRules.ObjSim objs objs') (hv : NPRulesValid objs)
+    (hr : PodsReal objs) (hpp : PodPortsValid objs) (focus : String) :
     WorldDriver.runList objs focus = WorldDriver.runList objs' focus ∨
       WorldDriver.runList objs focus = WorldDriver.errSx .namedPortOnIP ∨
       WorldDriver.runList objs' focus = WorldDriver.errSx .namedPortOnIP :=
-  PermRules.runList_rules_perm_or h hv hr hpp focus
+  Or.inl (np_inner_order_independent h hv hr hpp focus)
 
 /-- parts 1 and 2 together: reorder the objects, then reorder inside the NetworkPolicies -/
 theorem list_order_independent_both {objs mid objs' : List Obj} (hp : objs.Perm mid)
     (h : PermRules.Forall₂ PermRules.ObjSim mid objs') (hw : WellFormed objs)
-    (hi : PermIngress.IngressWF objs) (hn : PermRules.NoNamedPorts objs)
+    (hi : PermIngress.IngressWF objs)
     (hok : (Netpol.Engine.build objs).isOk = true) (focus : String) :
     WorldDriver.runList objs focus = WorldDriver.runList objs' focus := by
   rw [list_order_independent hp hw hi hok focus]
   have hw' := hw.perm hp
-  refine np_inner_order_independent h hw'.policies.1 ?_ ?_ hw'.ports focus
-  · exact fun p hm => hn p ((npsOf_perm hp).mem_iff.mpr hm)
-  · exact fun p hm => (hw'.uniform p hm p hm rfl).real
+  exact np_inner_order_independent h hw'.policies.1 hw'.real hw'.ports focus
 
-/-- the finding behind `NoNamedPorts`: one pod, one policy with the egress rules
-`[⟨[], []⟩, ⟨[ipBlock 10.0.0.0/8], [named port "http"]⟩]` gives a report, the same policy with
-the two rules swapped gives `(err namedPortOnIP)` -/
-theorem np_rule_order_matters :
-    WorldDriver.runList PermRules.Findings.worldOK "" ≠ WorldDriver.runList PermRules.Findings.worldErr "" :=
-  PermRules.Findings.rule_order_matters
+/-- the former counterexample (on the model and on the Go code): one pod, one policy with the
+egress rules `[⟨[], []⟩, ⟨[ipBlock 10.0.0.0/8], [named port "http"]⟩]` gave a report, the same
+policy with the two rules swapped gave `(err namedPortOnIP)`. Now both orders give the same
+report … -/
+theorem np_rule_order_repaired (focus : String) :
+    WorldDriver.runList PermRules.Findings.worldOK focus =
+      WorldDriver.runList PermRules.Findings.worldErr focus :=
+  np_inner_order_independent (by decide) (by decide) (by decide) (by decide) focus
+
+/-- … namely the error -/
+theorem np_rule_order_repaired_value :
+    WorldDriver.runList PermRules.Findings.worldOK "" = WorldDriver.errSx .namedPortOnIP ∧
+    WorldDriver.runList PermRules.Findings.worldErr "" = WorldDriver.errSx .namedPortOnIP :=
+  ⟨PermRules.Findings.report_err', PermRules.Findings.report_err⟩
 
 /-! (`Decidable` instances for `DistinctKeys`, `WellFormed`, `ConflictFree`, `IngressWF` and the
 predicates of part F are in `Netpol.Proofs.PermIngress` / `Netpol.Proofs.PermRules`.) -/
@@ -335,7 +365,7 @@ example (focus : String) :
 ports permuted) -/
 example (focus : String) :
     WorldDriver.runList PermRules.Example.objs focus = WorldDriver.runList PermRules.Example.objs' focus :=
-  np_inner_order_independent (by decide) (by decide) (by decide) (by decide) (by decide) focus
+  np_inner_order_independent (by decide) (by decide) (by decide) (by decide) focus
 
 /-- what `build` makes of the two orders: different association lists, the same objects -/
 example : (Netpol.Engine.build objs).map (fun e => e.pods.map podKey) =
@@ -348,31 +378,39 @@ example : (Netpol.Engine.build objs).map (fun e => e.netpols.map (·.name)) =
     .ok ["web", "db", "web-metrics"] := by decide
 example : (Netpol.Engine.build objs.reverse).map (fun e => e.netpols.map (·.name)) =
     .ok ["web-metrics", "db", "web"] := by decide
-/-- the standing pod of a workload depends on the order (`db-x2` / `db-x1`) -/
-example : ((Netpol.Engine.build objs).bind (·.podOwnersMap)).map (fun o => o.map fun x => (x.1, x.2.name)) =
-    .ok [("default/web[Deployment]", "web-2"), ("prod/db[ReplicaSet]", "db-x2"),
-      ("default/client[Pod]", "client")] := by decide
-example : ((Netpol.Engine.build objs.reverse).bind (·.podOwnersMap)).map (fun o => o.map fun x => (x.1, x.2.name)) =
-    .ok [("prod/db[ReplicaSet]", "db-x1"), ("default/client[Pod]", "client"),
-      ("default/web[Deployment]", "web-2")] := by decide
+/-- the workload peers and their standing pods do not depend on the order: the pod with the
+greatest key stands for its workload (`web-2`, `db-x2`). `podOwnersMapD` is `podOwnersMap` with the
+`mergeSort` of `sortedPods` replaced by an insertion sort that `decide` can run; on the engine
+`build` returns they are equal (`PermLayer.podOwnersMap_build`). -/
+example : ((Netpol.Engine.build objs).bind podOwnersMapD).map (fun o => o.map fun x => (x.1, x.2.name)) =
+    .ok [("default/client[Pod]", "client"), ("default/web[Deployment]", "web-2"),
+      ("prod/db[ReplicaSet]", "db-x2")] := by decide
+example : ((Netpol.Engine.build objs.reverse).bind podOwnersMapD).map (fun o => o.map fun x => (x.1, x.2.name)) =
+    .ok [("default/client[Pod]", "client"), ("default/web[Deployment]", "web-2"),
+      ("prod/db[ReplicaSet]", "db-x2")] := by decide
+example {l : List Obj} {e : Netpol.Engine} (h : Netpol.Engine.build l = .ok e) :
+    e.podOwnersMap = podOwnersMapD e := podOwnersMap_build h
 
 end Examples
 
 /-! ### counterexamples: why each hypothesis is there
 
-Each world below is a fixed set of objects whose report depends on the order in which the objects
-are met. Since document order, file layout and Go map iteration order all feed that order, these
-are candidate order dependences / nondeterminisms of the Go tool (1–3 need the input to hold two
-objects with the same key in different documents; 4 and 5 only need Go's random map iteration).
-The `runList` outputs in the comments were obtained with `#eval` (`decide` cannot unfold the
-`mergeSort` inside `runList`); the `example`s check the decisive intermediate values. -/
+Each world below (except 4, which the sorted iteration of `createPodOwnersMap` repaired) is a fixed
+set of objects whose report depends on the order in which the objects are met. Since document
+order, file layout and Go map iteration order all feed that order, these are candidate order
+dependences / nondeterminisms of the Go tool (1–3 need the input to hold two objects with the same
+key in different documents; 5, 7, 8 only need Go's random map iteration, on inputs the API server
+would reject). The `runList` outputs in the comments were obtained with `#eval` (`decide` cannot
+unfold the `mergeSort`s inside `runList`); the `example`s check the decisive intermediate values,
+with `podOwnersMapD` for `podOwnersMap` (equal on the engine `build` returns,
+`PermLayer.podOwnersMap_build`). -/
 namespace Counterexamples
 attribute [local instance] Netpol.Engine.decEqExcept
 
 /-- the entries between the workload peers (no IP peers), as `list` prints them -/
 def podEntries (objs : List Obj) : Except Err (List (String × String × ConnSet)) := do
   let e ← Netpol.Engine.build objs
-  let owners ← e.podOwnersMap
+  let owners ← podOwnersMapD e
   let entries ← e.connsBetweenPeers (owners.map fun (n, p) => LPeer.wl n p) ""
   pure (entries.map entryKey)
 
@@ -424,17 +462,18 @@ def ce3 : List Obj := [.wl wlWeb, .pod podWeb1, .pod podB]
 def ce3' : List Obj := [.pod podWeb1, .wl wlWeb, .pod podB]
 example : ce3.Perm ce3' := List.Perm.swap _ _ _
 example : ¬ DistinctKeys ce3 := by decide
-example : ((Netpol.Engine.build ce3).bind (·.podOwnersMap)).map (fun o => o.map (·.1)) =
-      .ok ["default/web-1[Pod]", "default/b[Pod]"] ∧
-    ((Netpol.Engine.build ce3').bind (·.podOwnersMap)).map (fun o => o.map (·.1)) =
-      .ok ["default/web[Deployment]", "default/b[Pod]"] := by decide
+example : ((Netpol.Engine.build ce3).bind podOwnersMapD).map (fun o => o.map (·.1)) =
+      .ok ["default/b[Pod]", "default/web-1[Pod]"] ∧
+    ((Netpol.Engine.build ce3').bind podOwnersMapD).map (fun o => o.map (·.1)) =
+      .ok ["default/b[Pod]", "default/web[Deployment]"] := by decide
 
-/-! 4. **two pods of one owner with the same labels and different container ports.** Keys are
-distinct, `createPodOwnersMap` accepts the input (it compares labels only), but the report is
-computed on the pod met last, and a named port resolves on that pod's container ports:
-`runList ce4 ""` has `default/b[Pod] default/rs[ReplicaSet] TCP_8080`, `runList ce4' ""` has
-`default/b[Pod] default/rs[ReplicaSet] TCP_80`. In the Go code the pods are iterated from a Go map,
-so this is a candidate run-to-run nondeterminism on one and the same input. -/
+/-! 4. **(repaired — now an equality)** two pods of one owner with the same labels and different
+container ports. `createPodOwnersMap` accepts the input (it compares labels only). Before the
+repair the report was computed on the pod met last in the pod map, and a named port resolves on
+that pod's container ports: the model printed `default/b[Pod] default/rs[ReplicaSet] TCP_8080` for
+`ce4` and `… TCP_80` for `ce4'`, and the Go tool printed `TCP 80` in 4 of 30 runs on this input and
+`TCP 8080` in 26 (Go map iteration). Now the pod with the greatest key, `default/o2`, stands for the
+workload in every order. -/
 def podO1 : Pod :=
   { ns := "default", name := "o1", labels := [("app", "o")], ports := [⟨"http", .TCP, 80⟩],
     ownerKind := "ReplicaSet", ownerName := "rs" }
@@ -448,40 +487,43 @@ def npNamed : NetPol :=
 def ce4 : List Obj := [.pod podO1, .pod podO2, .pod podB, .np npNamed]
 def ce4' : List Obj := [.pod podO2, .pod podO1, .pod podB, .np npNamed]
 example : ce4.Perm ce4' := List.Perm.swap _ _ _
-/-- all hypotheses but uniformity hold -/
-example : DistinctKeys ce4 ∧ PodPortsValid ce4 ∧ PoliciesValid ce4 ∧ ¬ UniformPods (podsIn ce4) := by
-  decide
-example : (Netpol.Engine.build ce4).isOk = true := by decide
+/-- every hypothesis holds; the two pods are not interchangeable -/
+example : WellFormed ce4 ∧ PermIngress.IngressWF ce4 ∧ ¬ UniformPods (podsIn ce4) := by decide
+/-- the report is the same in both orders, by the theorem … -/
+theorem ce4_repaired (focus : String) :
+    WorldDriver.runList ce4 focus = WorldDriver.runList ce4' focus :=
+  list_order_independent (List.Perm.swap _ _ _) (by decide) (by decide) (by decide) focus
+/-- … and by evaluation: `TCP 8080` in both -/
 example : podEntries ce4 = .ok [
-      ("default/rs[ReplicaSet]", "default/b[Pod]", ConnSet.mk' true),
-      ("default/b[Pod]", "default/rs[ReplicaSet]", ⟨false, some ⟨[⟨8080, 8080⟩], [], []⟩, none, none⟩)] ∧
-    podEntries ce4' = .ok [
-      ("default/rs[ReplicaSet]", "default/b[Pod]", ConnSet.mk' true),
-      ("default/b[Pod]", "default/rs[ReplicaSet]", ⟨false, some ⟨[⟨80, 80⟩], [], []⟩, none, none⟩)] := by
+      ("default/b[Pod]", "default/rs[ReplicaSet]", ⟨false, some ⟨[⟨8080, 8080⟩], [], []⟩, none, none⟩),
+      ("default/rs[ReplicaSet]", "default/b[Pod]", ConnSet.mk' true)] ∧
+    podEntries ce4' = podEntries ce4 := by
   decide
 
-/-! 5. two different evaluation errors are present (a named port towards an IP block, a rule peer
-with neither selector nor ipBlock): the loop reports the first one it meets, which depends on the
-order of the pod map. `runList ce5 ""` is `(err namedPortOnIP)`, `runList ce5' ""` is
-`(err emptyRulePeer)`. (Both runs fail; the message differs. `PoliciesValid` excludes the second
-error, so that `namedPortOnIP` is the only one left.) -/
+/-! 5. two different evaluation errors are present in two policies selecting the same pod (a named
+port towards an IP block, a rule peer with neither selector nor ipBlock): the NetworkPolicy layer
+reports the first one it meets, which depends on the order of the policies — in Go a map iteration.
+`runList ce5 ""` is `(err namedPortOnIP)`, `runList ce5' ""` is `(err emptyRulePeer)`. (Both runs
+fail; the message differs. `NPRulesValid` excludes the second error, so that `namedPortOnIP` is the
+only one left. The same two errors in policies selecting two *different* pods used to depend on the
+order of the pod map as well; with the sorted peers list they no longer do.) -/
 def podA : Pod := { ns := "default", name := "a", labels := [("app", "a")], ports := [] }
 def podB' : Pod := { ns := "default", name := "b", labels := [("app", "b")], ports := [] }
 def npNamedIP : NetPol :=
   { ns := "default", name := "n1", podSel := ⟨[("app", "a")], []⟩, types := [.egress], ingress := [],
     egress := [⟨[], [⟨none, .name "http"⟩]⟩] }
 def npEmptyPeer : NetPol :=
-  { ns := "default", name := "n2", podSel := ⟨[("app", "b")], []⟩, types := [.egress], ingress := [],
+  { ns := "default", name := "n2", podSel := ⟨[("app", "a")], []⟩, types := [.egress], ingress := [],
     egress := [⟨[.sel none none], []⟩] }
 def ce5 : List Obj := [.pod podA, .pod podB', .np npNamedIP, .np npEmptyPeer]
-def ce5' : List Obj := [.pod podB', .pod podA, .np npNamedIP, .np npEmptyPeer]
-example : ce5.Perm ce5' := List.Perm.swap _ _ _
-example : DistinctKeys ce5 ∧ UniformPods (podsIn ce5) ∧ PodPortsValid ce5 ∧ ¬ PoliciesValid ce5 := by
+def ce5' : List Obj := [.pod podA, .pod podB', .np npEmptyPeer, .np npNamedIP]
+example : ce5.Perm ce5' := ((List.Perm.swap _ _ _).cons _).cons _
+example : DistinctKeys ce5 ∧ PodsReal ce5 ∧ PodPortsValid ce5 ∧ ¬ NPRulesValid ce5 := by
   decide
 /-- the loop over the whole address space as IP peer and the two pods, in the two orders -/
 def loop5 (objs : List Obj) : Except Err (List (String × String × ConnSet)) := do
   let e ← Netpol.Engine.build objs
-  let owners ← e.podOwnersMap
+  let owners ← podOwnersMapD e
   let entries ← e.connsBetweenPeers (LPeer.ip ⟨0, ipMax⟩ :: owners.map fun (n, p) => LPeer.wl n p) ""
   pure (entries.map entryKey)
 example : loop5 ce5 = .error .namedPortOnIP ∧ loop5 ce5' = .error .emptyRulePeer := by decide
@@ -522,7 +564,7 @@ def ce7' : List Obj := [.pod podA, .pod podB', .np npY, .np npX1, .np npX2]
 example : ce7.Perm ce7' :=
   (List.perm_append_comm (l₁ := [Obj.np npX1, Obj.np npX2]) (l₂ := [Obj.np npY])).append_left
     [Obj.pod podA, Obj.pod podB']
-example : DistinctKeys ce7 ∧ UniformPods (podsIn ce7) ∧ PodPortsValid ce7 ∧ ¬ PoliciesValid ce7 := by
+example : DistinctKeys ce7 ∧ PodsReal ce7 ∧ PodPortsValid ce7 ∧ ¬ NPRulesValid ce7 := by
   decide
 def fullSet : PortSet := ⟨[⟨1, 65535⟩], [], []⟩
 example : podEntries ce7 = .ok [("default/a[Pod]", "default/b[Pod]", ConnSet.mk' true),
@@ -541,7 +583,7 @@ def ce8' : List Obj := [.pod podA8, .pod podB', .np npYNamed, .np npX1, .np npX2
 example : ce8.Perm ce8' :=
   (List.perm_append_comm (l₁ := [Obj.np npX1, Obj.np npX2]) (l₂ := [Obj.np npYNamed])).append_left
     [Obj.pod podA8, Obj.pod podB']
-example : DistinctKeys ce8 ∧ UniformPods (podsIn ce8) ∧ PoliciesValid ce8 ∧ ¬ PodPortsValid ce8 := by
+example : DistinctKeys ce8 ∧ PodsReal ce8 ∧ PoliciesValid ce8 ∧ ¬ PodPortsValid ce8 := by
   decide
 example : podEntries ce8 = .ok [("default/a[Pod]", "default/b[Pod]", ConnSet.mk' true),
       ("default/b[Pod]", "default/a[Pod]", ConnSet.mk' true)] ∧
